@@ -47,7 +47,7 @@ pub struct BuzHash {
     hash_sum: u32,
     buzhash_table: Vec<u32>,
     window_full: bool,
-    last_input: u8,
+    last_input: Option<u8>,
     repeated_input: usize,
 }
 
@@ -61,7 +61,7 @@ impl BuzHash {
             hash_sum: 0,
             buzhash_table: Self::generate_seeded_table(BUZHASH_SEED),
             window_full: false,
-            last_input: 0,
+            last_input: None,
             repeated_input: 0,
         }
     }
@@ -87,11 +87,11 @@ impl BuzHash {
     pub fn input(&mut self, in_val: u8) {
         // If the buzhash window is full of the same value then there is no
         // need pushing another one of the same as it won't change the hash.
-        if in_val == self.last_input {
+        if Some(in_val) == self.last_input {
             self.repeated_input += 1;
         } else {
             self.repeated_input = 0;
-            self.last_input = in_val;
+            self.last_input = Some(in_val);
         }
         if self.repeated_input < self.window {
             let in_val = self.buzhash_table[in_val as usize];
